@@ -206,6 +206,63 @@ def run(ctx):
                            "%s is given the formatter and its Result is %s: a failed sink write inside it is answered "
                            "with another attempt or forgotten" % (c.name, "; ".join("%s (%s)" % (d[0], d[1]) for d in bad)),
                            f.where(c.bb))
+        # O8b (round 10, seed C19-10): the verdict can also travel inside the value a combinator returns - `cond.then(||
+        # f.write_str(", "))` is an Option<fmt::Result>, `opt.map(|x| write!(f, ..))` likewise.  A call that is handed a
+        # closure which captured the formatter must have its return value used; and inside such a closure (it has no
+        # Formatter *parameter*, so the loop above did not see it) every call given the captured formatter is held to the
+        # same discipline.
+        def _is_fmt(g, op_):
+            p_ = op_place(op_)
+            return p_ is not None and "p" not in p_ and g.locals[p_["l"]].get("adt") == "core::fmt::Formatter"
+        for f in prog.fns.values():
+            if f.crate != "minijinja":
+                continue
+            per = {}
+            for c in f.calls():
+                # (a) a closure that captured the formatter is handed to this call
+                handed = False
+                for a in c.args:
+                    if "c" in a:
+                        continue
+                    for o in flow.origins(f, a):
+                        if o.kind == "agg" and o.rv.get("closure") and any(
+                                _is_fmt(f, x) or any(q.kind == "arg" and f.locals[q.arg].get("adt") == "core::fmt::Formatter" and not q.proj
+                                                     for q in (flow.origins(f, x) if "c" not in x else []))
+                                for x in o.rv["ops"]):
+                            handed = True
+                if handed and c.dest is not None and "p" not in c.dest and f.locals[c.dest["l"]].get("s") != "()":
+                    n8 += 1
+                    d_ = c.dest["l"]
+                    used = False
+                    for bb, i, st in f.all_stmts():
+                        rv = st.get("rv")
+                        if rv and any(op_place(x) is not None and op_place(x)["l"] == d_ for x in query.rv_operands(rv)):
+                            used = True
+                        if rv and rv["k"] in ("ref", "discr") and rv["place"]["l"] == d_:
+                            used = True
+                    for bb in f.reachable:
+                        t = f.term(bb)
+                        if t["k"] == "call" and any(op_place(x) is not None and op_place(x)["l"] == d_ for x in t["args"]):
+                            used = True
+                        if t["k"] == "switch" and op_place(t["discr"]) is not None and op_place(t["discr"])["l"] == d_:
+                            used = True
+                    if d_ == 0:
+                        used = True
+                    k = per[c.name] = per.get(c.name, 0) + 1
+                    ctx.ob("C19.O8.formatting-code-hands-the-sink's-verdict-on", "%s%s|%s#%d(closure)" % (tag, f.path, c.name.split("::")[-1], k), used,
+                           "%s is handed a closure that writes to the captured formatter, and what it returns (the closure's "
+                           "verdict included) is never looked at" % c.name, f.where(c.bb))
+                # (b) inside a closure: calls given the captured formatter
+                if f.kind == "closure" and result_ty(f, c.dest) and any(_is_fmt(f, a) for a in c.args) and not any(
+                        f.locals[l].get("adt") == "core::fmt::Formatter" for l in range(2, f.argc + 1)):
+                    n8 += 1
+                    ds = errflow.disposition(f, c)
+                    bad = [d for d in ds if d[0] in ("swallowed", "dropped", "matched-not-propagated")]
+                    if bad:
+                        k = per[c.name] = per.get(c.name, 0) + 1
+                        ctx.ob("C19.O8.formatting-code-hands-the-sink's-verdict-on", "%s%s|%s#%d" % (tag, f.path, c.name.split("::")[-1], k), False,
+                               "%s is given the captured formatter and its Result is %s" % (c.name, "; ".join("%s (%s)" % (d[0], d[1]) for d in bad)),
+                               f.where(c.bb))
         ctx.ob("C19.O8.formatting-code-hands-the-sink's-verdict-on", tag + "all-formatting-functions", True, "calls checked: %d" % n8, "")
         ctx.floor("C19.O8 calls given a formatter in the engine's formatting code" + tag, n8, 60)
     prog = ctx.prog
